@@ -84,7 +84,7 @@ int main() {
 
 def build(pool=None, tag='core', shards=16, force=False):
     pool = pool if pool is not None else nopgen.core_pool()
-    srcs = [os.path.join(VERIF, 'harness', 'glue.h'), os.path.join(VERIF, 'harness', 'prim.cpp'), os.path.join(VERIF, 'harness', 'objs.cpp'), os.path.join(VERIF, 'tools', 'nopgen.py'), os.path.join(VERIF, 'tools', 'rpcgen.py'),
+    srcs = [os.path.join(VERIF, 'harness', 'glue.h'), os.path.join(VERIF, 'harness', 'prim.cpp'), os.path.join(VERIF, 'harness', 'objs.cpp'), os.path.join(VERIF, 'harness', 'thr.cpp'), os.path.join(VERIF, 'tools', 'nopgen.py'), os.path.join(VERIF, 'tools', 'rpcgen.py'),
             os.path.abspath(__file__), os.path.join(VERIF, 'tools', 'common.py')]
     key = sha_files(srcs + tree_files(os.path.join(REPO, 'include')), extra=tag + '|'.join(nopgen.desc(t) for t in pool))
     out = os.path.join(BUILD, 'h-%s-%s' % (tag, key))
@@ -172,6 +172,12 @@ def build(pool=None, tag='core', shards=16, force=False):
             return src, Ok()
         return src, r
 
+    def cc_thr(_):
+        src = os.path.join(VERIF, 'harness', 'thr.cpp')
+        r = run([CXX, '-std=c++14', '-O1', '-g1', '-fsanitize=thread', '-fno-omit-frame-pointer', '-I' + os.path.join(REPO, 'include'),
+                 src, '-o', os.path.join(out, 'thr'), '-pthread'], timeout=1200)
+        return src, r
+
     def cc_objs(_):
         src = os.path.join(VERIF, 'harness', 'objs.cpp')
         r = run([CXX] + CXXFLAGS + [src, '-o', os.path.join(out, 'objs')], timeout=1200)
@@ -180,12 +186,14 @@ def build(pool=None, tag='core', shards=16, force=False):
         fut = ex.submit(cc_prim, None)
         fut2 = ex.submit(cc_objs, None)
         fut3 = ex.submit(cc_rpc, 'rpc')
+        fut5 = ex.submit(cc_thr, None)
         fut4 = ex.submit(cc_rpc, 'rpcp')
         res = list(ex.map(cc, files))
         res.append(fut.result())
         res.append(fut2.result())
         res.append(fut3.result())
         res.append(fut4.result())
+        res.append(fut5.result())
     bad = [(p, r) for p, r in res if r.returncode != 0]
     if bad:
         p, r = bad[0]
